@@ -745,7 +745,7 @@ example : Rx.runsSeq asciiEnv "x oF y".toStr (kwRx "of".toStr) 2 [] = [(4, [])] 
     (a) the tie of the hand scanners to the engine on the generated regexes: for every token regex
         `r` of `Gen.lexicon`, `Rx.matchAt asciiEnv r (render T sp) i` succeeds with the end position
         and group spans predicted by `scanIdent` / `skipWSC` / `scanString` (a proof by induction on
-        `Rx.runs` through `rxs_18`/`rxs_19` (IDENTIFIER), `rxs_21` (WSC*), `rxs_37` (VALUE), including
+        `Rx.runs` through the generated sub-expressions for IDENTIFIER, WSC* and VALUE, including
         that backtracking never finds an earlier alternative), and likewise
         `Parser.cssUnescape env L = Escape.cssUnescape` / `Spelling.unescapeString` through
         `Parser.subWith`;
